@@ -10,43 +10,35 @@ LEVEL = "proof"
 
 
 def find_bound_check(db, f):
-    """returns (accepted set over the index variable's full range, index type, var decl id) using the exact evaluator"""
+    """returns {var, t, A}: the index variable and the exact set of its values that pass the first abort check after it is formed
+    (helpers / lambdas inlined and every form of abort check recognised: sa/astwalk.py)"""
+    from ..astwalk import Walker, Hooks, Unhandled
     env = {}
     found = {}
 
-    def walk(st):
-        s = st.get("s")
-        if s == "block":
-            for x in st["b"]:
-                walk(x)
-        elif s == "decl":
-            for v in st["v"]:
-                if v.get("sa"):
-                    continue
-                if "init" in v:
-                    env[v["d"]] = v["init"]
-                    # the index variable: initialised from the (unwrapped) rhs parameter
-                    if mentions_param(v["init"], f["params"][0]["d"]) and (v["t"] or {}).get("k") in ("int", "bool", "enum") and "var" not in found:
-                        found["var"] = v["d"]
-                        found["t"] = v["t"]
-        elif s == "expr":
-            e = st["e"]
-            if e["k"] == "call" and is_check_fn(db, e.get("fn")) and "var" in found and "A" not in found:
-                dom = [trange(found["t"])]
-                env2 = {k: v for k, v in env.items() if k != found["var"]}
-                found["A"] = Evaluator({found["var"]}, env2).sat(e["args"][0], dom)
-        elif s == "if":
-            if stmt_always_aborts(st.get("then")) and st.get("else") is None and "var" in found and "A" not in found:
-                # the same check written as `if (!(cond)) abort`: the accepted set is the complement of the aborting condition
-                dom = [trange(found["t"])]
-                env2 = {k: v for k, v in env.items() if k != found["var"]}
-                found["A"] = complement(Evaluator({found["var"]}, env2).sat(st["c"], dom), dom)
-                return
-            walk(st.get("then") or {"s": "null"})
-            if st.get("else"):
-                walk(st["else"])
+    class H(Hooks):
+        def decl(self, v):
+            if "init" in v and "var" not in found and (v["t"] or {}).get("k") in ("int", "bool", "enum") and ops.mentions_param_env(v["init"], f["params"][0]["d"], env):
+                # the index variable: initialised from the (unwrapped) rhs parameter
+                found["var"] = v["d"]
+                found["t"] = v["t"]
 
-    walk(f["body"])
+        def check(self, cond, positive, loc):
+            if "var" in found and "A" not in found:
+                dom = [trange(found["t"])]
+                env2 = {k: v for k, v in env.items() if k != found["var"]}
+                T = Evaluator({found["var"]}, env2).sat(cond, dom)
+                found["A"] = T if positive else complement(T, dom)
+
+        def branch(self, st):
+            # `if constexpr`-like run-time branches on wrapper kind do not occur in instantiations; walk both arms for the scan
+            pass
+
+    w = Walker(db, H(), env)
+    try:
+        w.walk(f["body"])
+    except Unhandled as ex:
+        raise IvInconclusive(str(ex))
     return found
 
 
@@ -166,7 +158,20 @@ def offset_idiom_ok(db, p, rhs, T, wk):
     r = p.retval
     if not (isinstance(r, tuple) and r[:1] == ("deref",)):
         return "the element is not taken from the wrapper's own storage (returned %s)" % fmt(r)[:100]
-    off = _lin("-", r[1], ("this",))
+    def at_this(t):
+        """addresses that coincide with `this`: the wrapper's single storage member and element 0 of it sit at offset 0"""
+        if not isinstance(t, tuple):
+            return t
+        if t[:1] == ("addr",):
+            lv = t[1]
+            while isinstance(lv, tuple) and ((lv[:1] == ("idx",) and lv[2] == C(0)) or (lv[:1] == ("fld",) and lv[2] == "data")):
+                lv = lv[1]
+            if lv == ("deref", ("this",)):
+                return ("this",)
+            return t
+        return tuple(at_this(x) for x in t)
+
+    off = _lin("-", at_this(r[1]), ("this",))
     if not (isinstance(off, tuple) and off[0] in ("lin", "c")):
         off = ("lin", 0, ((off, 1),))
     try:
